@@ -44,6 +44,9 @@ def scenarios(tier):
                 if tier == "quick" and w == "s3plain" and op not in ("append", "delete"):
                     continue
                 out.append({"world": w, "op": op, "style": sty})
+    # partial deletes (the manifest that lists the deleted file is rewritten, the old one stays referenced by the older snapshots)
+    out.append({"world": "local", "op": "delete", "style": "with_auto", "partial": True})
+    out.append({"world": "s3cas", "op": "delete", "style": "with_commit", "partial": True})
     return out
 
 
@@ -53,10 +56,17 @@ def make_world(d, kind):
     return S3World(conditional=(kind == "s3cas"))
 
 
-def build_base(world):
+def build_base(world, partial=False):
     with world.env():
         t = world.create(make_schema(FIELDS))
-        t.append_records([{"k": 1, "s": "a"}, {"k": 2, "s": "b"}])
+        if partial:
+            # ONE manifest listing two data files: deleting one of them rewrites that manifest (a partial delete)
+            with t.new_transaction() as tx0:
+                tx0.append_data([{"k": 1, "s": "a"}])
+                tx0.append_data([{"k": 2, "s": "b"}])
+                tx0.commit()
+        else:
+            t.append_records([{"k": 1, "s": "a"}, {"k": 2, "s": "b"}])
         t.append_records([{"k": 3, "s": "c"}])
         t.append_records([{"k": 4, "s": "d"}])
     v = read_view(world.fs())
@@ -105,10 +115,10 @@ def do_op(t, sc, pre, holder=None):
             raise
 
 
-def pre_info(v):
+def pre_info(v, partial=False):
     cur = current_snapshot(v)
     return {"digest": view_digest(v), "ids": [s["id"] for s in v["snapshots"]], "rows": current_rows(v), "files": set(cur["files"]),
-            "del_path": sorted(cur["files"])[0], "cutoff": v["snapshots"][1]["ts"] + 1 if v["snapshots"][1]["ts"] < v["snapshots"][2]["ts"] else v["snapshots"][2]["ts"],
+            "del_path": sorted(v["snapshots"][0]["files"])[0] if partial else sorted(cur["files"])[0], "cutoff": v["snapshots"][1]["ts"] + 1 if v["snapshots"][1]["ts"] < v["snapshots"][2]["ts"] else v["snapshots"][2]["ts"],
             "del_snapshot": v["snapshots"][0]["id"], "pointer": v["metadata_file"], "by_id": {s["id"]: s for s in v["snapshots"]}, "current_id": v["current_id"]}
 
 
@@ -206,8 +216,8 @@ def run_scenario_kind(sc, kind, shard, nshard, tier, double=False):
     res = Result()
     with scratch_dir("c04") as d:
         base = make_world(d, sc["world"])
-        v0 = build_base(base)
-        pre = pre_info(v0)
+        v0 = build_base(base, partial=bool(sc.get("partial")))
+        pre = pre_info(v0, partial=bool(sc.get("partial")))
         # ---- clean run: learn the step sequence
         w = base.clone(d + "/clean") if sc["world"] == "local" else base.clone()
         st = Stepper()
@@ -403,7 +413,7 @@ def replay(case):
     sc = case["sc"]
     with scratch_dir("c04r") as d:
         base = make_world(d, sc["world"])
-        pre = pre_info(build_base(base))
+        pre = pre_info(build_base(base, partial=bool(sc.get("partial"))), partial=bool(sc.get("partial")))
         if "match" in case:
             # robust addressing: the n-th step (after the pointer flip if 'after_flip') whose normalised label matches
             w = base.clone(d + "/clean") if sc["world"] == "local" else base.clone()
